@@ -28,7 +28,7 @@ w = drf.DigitalMetadataWriter(md, 1000, 100, 1, 1, 'md')
 bad = 0
 if mode == 'read':
     a = kw['a']; samples = [a] + ([a + kw['d1']] if 'd1' in kw and kw.get('n', 3) >= 2 else []) + ([a + kw['d1'] + kw['d2']] if 'd2' in kw and kw.get('n', 3) >= 3 else [])
-    base = 10**6
+    base = 0        # the harness indices themselves: their decimal strings must have the same number of digits as in the counterexample
     w.write([base + s for s in samples], [{'v': s} for s in samples])
     r = drf.DigitalMetadataReader(md)
     b = r.get_bounds()
